@@ -337,8 +337,6 @@ def run_checksums(sh, rng, n):
 
 
 def run_shard(sh):
-  if "/repo" not in sys.path:
-    sys.path.insert(0, "/repo")
   if sh.params["part"] == 0:
     check_encoder(sh)
   for case in range(sh.params["programs"]):
